@@ -1,15 +1,21 @@
 ---------------------------- MODULE Gen_Shutdown ----------------------------
-(* Pattern B export for C13: environment schedules (offer / send / fire / release / drop) along behaviours of
+(* Pattern B export for C13: environment schedules (offer / send / fire / release / drop / end_incoming / age) along behaviours of
    the Mechanism model; printed once they are MaxSteps long or the serve future resolved. *)
 EXTENDS MC_Shutdown, Sequences
 CONSTANT MaxSteps
 VARIABLE sched
+\* the harness lets max_connection_age elapse for every connection accepted so far: Age(c) for all open c, composed
+AgeAll == /\ Aging /\ \E c \in Conns : conn[c] = "open"
+          /\ conn' = [c \in Conns |-> IF conn[c] = "open" THEN "draining" ELSE conn[c]]
+          /\ UNCHANGED <<sig, call, bcast, resolved, dropped, ended>>
 GInit == Init /\ sched = <<>>
 GEnv == \/ \E c \in Conns : Offer(c) /\ sched' = Append(sched, [op |-> "offer", c |-> c, k |-> 0])
         \/ \E c \in Conns : ClientDrop(c) /\ sched' = Append(sched, [op |-> "drop", c |-> c, k |-> 0])
         \/ \E k \in Calls : Send(k) /\ sched' = Append(sched, [op |-> "send", c |-> 0, k |-> k])
         \/ \E k \in Calls : Release(k) /\ sched' = Append(sched, [op |-> "release", c |-> 0, k |-> k])
         \/ Fire /\ sched' = Append(sched, [op |-> "fire", c |-> 0, k |-> 0])
+        \/ Len(sched) >= 4 /\ EndIncoming /\ sched' = Append(sched, [op |-> "end_incoming", c |-> 0, k |-> 0])
+        \/ AgeAll /\ sched' = Append(sched, [op |-> "age", c |-> 0, k |-> 0])
 GNext == (Len(sched) < MaxSteps /\ GEnv) \/ (Sys /\ UNCHANGED sched)
 GSpec == GInit /\ [][GNext]_<<vars, sched>>
 Export == (Len(sched) = MaxSteps \/ (resolved /\ Len(sched) >= 3)) =>
